@@ -205,6 +205,21 @@ def run_model(ctx, lines, timeout=3600):
     return out
 
 
+def run_model_parallel(ctx, lines, nproc=14):
+    """run_model split over processes (interleaved so that expensive ops are spread)"""
+    from concurrent.futures import ThreadPoolExecutor
+    if len(lines) < 4 * nproc:
+        return run_model(ctx, lines)
+    chunks = [lines[i::nproc] for i in range(nproc)]
+    with ThreadPoolExecutor(max_workers=nproc) as ex:
+        outs = list(ex.map(lambda c: run_model(ctx, c) if c else [], chunks))
+    res = [None] * len(lines)
+    for i, o in enumerate(outs):
+        for j, v in enumerate(o):
+            res[i + j * nproc] = v
+    return res
+
+
 class ModelSession:
     """interactive session with the model driver (for generators that need the model's answers,
     e.g. ciphertexts, to build the following operations)"""
